@@ -28,7 +28,7 @@ func NewSM4(key, iv []byte) BlockCryptor {
 	return &sm4Crypt{
 		block: block,
 		key:   key,
-		iv:    iv,
+		iv:    append(make([]byte, 0, len(iv)), iv...), // private copy, capacity = length
 	}
 }
 
